@@ -18,6 +18,15 @@ TABLE = {
         note="closed-form derivatives (self-tested against finite differences); float64; monomial basis "
              "determines constant-coefficient operators of order<=2 only",
         ref="DESIGN.md §4 C01"),
+    "C04": dict(
+        technique="runtime oracle monitor: real boundary term vs numpy formula with closed-form normal derivatives; facet measured on the points",
+        level="exploration",
+        text="terms['boundary_loss'] of the real stationary / non-stationary losses is compared with the numpy "
+             "per-facet formula on analytic fields (closed-form gradient . outward normal) for Dirichlet and Neumann "
+             "conditions, global and per-facet specifications (every subset of facets None), component selections, "
+             "f returning (), (1,), (k,), 1..5 time points, batches from the real generators and hand-built ones.",
+        note="outward normals as stated in the property; scalar boundary weight; pointwise networks (separable ones via C11)",
+        ref="DESIGN.md §4 C04"),
     "C08": dict(
         technique="runtime invariant monitor on generator stores and on every batch of long get_batch histories",
         level="exploration",
